@@ -480,6 +480,40 @@ def bounded_sequences(tier, seed):
             'rule': 'distinct = (construct family, length, item class tuple)'}
 
 
+# ---- eq_comparable: the pairs that fn:index-of / fn:distinct-values may compare with Python equality -------------------------------------------
+# For every pair of item kinds and ALL values of those kinds: the function answers False exactly for the pairs on which Python equality would conflate
+# values that the 'eq' operator does not compare (xs:boolean with a number, xs:untypedAtomic - compared as a string - with a non-string value).
+import itertools as _it         # noqa: E402
+import elementpath.xpath2._xpath2_functions as _F2       # noqa: E402
+from elementpath.datatypes import UntypedAtomic as _UA, AnyURI as _URI, DayTimeDuration as _DTD, QName as _QN       # noqa: E402
+
+_EQ_KINDS = {
+    'bool': lambda S, n, ex: S.bool(n), 'int': lambda S, n, ex: S.int(n), 'dec': lambda S, n, ex: S.dec(n), 'float': lambda S, n, ex: S.float(n, ex=ex),
+    'str': lambda S, n, ex: S.str(n), 'untyped': lambda S, n, ex: VObj(_UA, {'value': S.str(n + '_s')}, name=n),
+    'anyuri': lambda S, n, ex: VObj(_URI, {'value': S.str(n + '_s')}, name=n), 'duration': lambda S, n, ex: VObj(_DTD, {}, name=n), 'qname': lambda S, n, ex: VObj(_QN, {}, name=n),
+}
+
+
+def _eq_spec(k1, k2):
+    if 'bool' in (k1, k2):
+        return k1 == k2
+    if 'untyped' in (k1, k2):
+        return {k1, k2} <= {'untyped', 'str', 'anyuri'}
+    return True
+
+
+def _eq_case(k1, k2):
+    def setup(S, ex):
+        a, b = _EQ_KINDS[k1](S, 'a', ex), _EQ_KINDS[k2](S, 'b', ex)
+        return Case([a, b], names={'a': a, 'b': b})
+    return setup
+
+
+if hasattr(_F2, 'eq_comparable'):
+    for _k1, _k2 in _it.product(_EQ_KINDS, repeat=2):
+        CONTRACTS.append(Contract(f'eq_comparable.{_k1}.{_k2}', 'C08', (lambda: _F2.eq_comparable), _eq_case(_k1, _k2),
+                                  post=[('matches_the_eq_operator_table', f"returned and result == {_eq_spec(_k1, _k2)}")], native=None, expect_min_obligations=1))
+
 BOUNDED = [Bounded('sequence_constructs_small_scope', bounded_sequences)]
 NOT_DECIDED = [
     'order of double additions in sum/avg (IEEE arithmetic inside CPython)',
